@@ -465,6 +465,35 @@ type nativeFunc struct {
 	f    func(m *Machine, args []value) value
 }
 
+// sourcePkgs: library packages that are pure Go over their arguments and are
+// interpreted from their SSA like the target (unless a model exists for the
+// callee): a source edit that starts using one of them stays decidable.
+var sourcePkgs = map[string]bool{
+	"slices": true, "maps": true, "cmp": true, "sort": true,
+	"golang.org/x/exp/slices": true, "golang.org/x/exp/maps": true,
+	"container/list": true,
+}
+
+func (m *Machine) fromSource(fn *ssa.Function) bool {
+	pkg := fn.Pkg
+	if pkg == nil {
+		if o := fn.Origin(); o != nil {
+			pkg = o.Pkg
+		}
+	}
+	if pkg == nil || !sourcePkgs[pkg.Pkg.Path()] || fn.Blocks == nil {
+		return false
+	}
+	name := baseName(fn)
+	if _, ok := foreignTab[name]; ok {
+		return false
+	}
+	if _, ok := nativeReg[name]; ok {
+		return false
+	}
+	return true
+}
+
 func (m *Machine) isForeign(fn *ssa.Function) bool {
 	pkg := fn.Pkg
 	if pkg == nil {
@@ -495,7 +524,7 @@ func (m *Machine) callSSA(caller *frame, callpos token.Pos, fn *ssa.Function, ar
 		if h, ok := intrinsicsVFS[fn.Name()]; ok && m.isHarnessPkg(fn) {
 			return h(m, caller, fn, args)
 		}
-		if m.isForeign(fn) {
+		if m.isForeign(fn) && !m.fromSource(fn) {
 			return m.callForeign(caller, callpos, fn, args)
 		}
 		if stub, ok := m.codecStub(fn); ok {
